@@ -105,6 +105,22 @@ func tableConcurrent(c *evid.Ctx, prop string) {
 				d.N.S.Ping(addrOf(rr))
 			})
 		}
+		// several callers add the same few unknown nodes at the same time
+		pool := make([]*net.UDPAddr, 12)
+		pr := r.Fork("pool")
+		for i := range pool {
+			pool[i] = &net.UDPAddr{IP: pr.PublicIPv4(), Port: pr.Port()}
+		}
+		for w := 0; w < 4; w++ {
+			worker(fmt.Sprintf("addsame%d", w), len(pool), func(rr *gen.Rand, i int) {
+				a := pool[i]
+				id := idFor(a, rr)
+				pmu.Lock()
+				direct[tbl.Pair{Addr: a.String(), ID: id}] = true
+				pmu.Unlock()
+				d.N.S.AddNode(krpc.NodeInfo{ID: id, Addr: krpc.NodeAddr{IP: a.IP, Port: a.Port}})
+			})
+		}
 		worker("addnode", 60, func(rr *gen.Rand, i int) {
 			a := addrOf(rr)
 			id := idFor(a, rr)
